@@ -22,6 +22,8 @@ inductive PyErr
   | fuel                         -- a `while` loop exceeded the fuel given by the translator
 deriving Repr, DecidableEq, Inhabited
 
+deriving instance DecidableEq for Except
+
 /-- loop control value produced by one iteration of a translated loop body -/
 inductive Ctl (σ ρ : Type)
   | next (s : σ)   -- fell off the end of the body, or `continue`
@@ -110,6 +112,11 @@ def whileM {σ τ ρ : Type} (body : τ → PyM σ (Ctl τ ρ)) : Nat → τ →
     | (.ok (.brk t'), s') => (.ok (.done t' true), s')
     | (.ok (.ret r), s') => (.ok (.ret r), s')
 
+/-- a loop whose body never returns: the carried locals and whether it ended by `break` -/
+def LoopRes.noRet {σ : Type} : LoopRes σ Empty → σ × Bool
+  | .done s b => (s, b)
+  | .ret r => nomatch r
+
 /-! ### integers -/
 
 def b2n (b : Bool) : Nat := if b then 1 else 0
@@ -165,6 +172,12 @@ def partition1 (sep : UInt8) : List UInt8 → List UInt8 × Bool × List UInt8
     if b == sep then ([], true, bs)
     else let (h, f, t) := partition1 sep bs; (b :: h, f, t)
 
+/-- `bytes([x]) in buf` -/
+def bytesContains1 (needle buf : List UInt8) : Bool :=
+  match needle with
+  | [x] => buf.contains x
+  | _ => false
+
 /-- `bytearray.pop(i)`: the array without element `i` -/
 def popAt (bs : List UInt8) (i : Nat) : Except PyErr (List UInt8) :=
   if i < bs.length then .ok (bs.eraseIdx i) else .error (.raised "IndexError")
@@ -175,6 +188,10 @@ def dictGet (d : List (Nat × β)) (k : Nat) : Option β := d.lookup k
 /-- `d[k] = v`: an existing key keeps its position -/
 def dictSet (d : List (Nat × β)) (k : Nat) (v : β) : List (Nat × β) :=
   if d.any (·.1 == k) then d.map (fun kv => if kv.1 == k then (k, v) else kv) else d ++ [(k, v)]
+def dictIndex (d : List (Nat × β)) (k : Nat) : Except PyErr β :=
+  match d.lookup k with
+  | some v => .ok v
+  | none => .error (.raised "KeyError")
 def dictPop (d : List (Nat × β)) (k : Nat) : Except PyErr (β × List (Nat × β)) :=
   match d.lookup k with
   | some v => .ok (v, d.filter (·.1 != k))
